@@ -106,6 +106,10 @@ pub fn from_parts(
             pattern_lens.len(),
         )
     };
+    // Fields not named here (a change to the crate may add some) come from an
+    // all-zero value of the type; the parts of it that are not used are empty
+    // vectors / None / zero ids, whose drop is a no-op.
+    let base = unsafe { core::mem::MaybeUninit::<DFA>::zeroed().assume_init() };
     DFA {
         trans: t,
         matches: m,
@@ -125,6 +129,7 @@ pub fn from_parts(
             start_unanchored_id: StateID::new_unchecked(special[2] as usize),
             start_anchored_id: StateID::new_unchecked(special[3] as usize),
         },
+        ..base
     }
 }
 
